@@ -780,9 +780,30 @@ def run_generator_scenario(seed, wait_s=2.6):
                 g["sends"].append(msg)
                 if r.random() < 0.5:
                     cl.append("other", ctx=r.choice(ctxs))
+        # the same generator name in two contexts: each instance is fed only by the .send frames of its own context
+        twin = None
+        if len(ctxs) > 1 and r.random() < 0.7:
+            ia = cl.append("twin.spawn", ctx=ctxs[0], body=GEN_DUPLEX.encode(), meta={"duplex": True})
+            ib = cl.append("twin.spawn", ctx=ctxs[1], body=GEN_DUPLEX.encode(), meta={"duplex": True})
+            cl.wait_topic("twin.start", ctx=ctxs[0], after=ia or 0, timeout=5)
+            cl.wait_topic("twin.start", ctx=ctxs[1], after=ib or 0, timeout=5)
+            cl.append("twin.send", ctx=ctxs[0], body=b"for-a")
+            cl.append("twin.send", ctx=ctxs[1], body=b"for-b")
+            twin = (ia, ib)
         time.sleep(wait_s)
         cl.settle(0.3, 5)
         fr = cl.frames()
+        if twin:
+            for sid, c, want in ((twin[0], ctxs[0], b"hi: for-a"), (twin[1], ctxs[1], b"hi: for-b")):
+                if not sid:
+                    rep["violations"].append(dict(what="a spawn of `twin` was refused although no generator of that name runs in that context"))
+                    continue
+                recvs = [cl.cas(f["hash"]) for f in fr if f["topic"] == "twin.recv" and f["meta"] and f["meta"].get("source_id") == H.id_to_s(sid)]
+                rep["frames"] += len(recvs)
+                if recvs != [want]:
+                    rep["violations"].append(dict(
+                        what=f"duplex generator `twin` of context {'zero' if c == 0 else 'non-zero'} was fed {recvs} - expected exactly "
+                             f"[{want!r}]: a .send appended in another context must not feed it"))
         for g in gens:
             sid = H.id_to_s(g["id"]) if g["id"] else None
             mine = [f for f in fr if f["meta"] and f["meta"].get("source_id") == sid]
